@@ -214,6 +214,7 @@ class Engine:
         self.dropped = []      # statements dropped / abstracted, reported in evidence
         self.trusted_used = set()
         self.lemmas_used = set()
+        self.spec_role = "prove"     # "assume" while a contract's clauses are being assumed at a call site
         self.budget_ms = budget_ms
         self.paths = 0
         self.spec_mode = 0
@@ -316,7 +317,13 @@ class Engine:
             dig = hashlib.sha256((name + "|" + "&".join(sorted(a.sexpr() for a in self.pc)) + "=>" + g.sexpr()
                                   ).encode()).hexdigest()
             if dig not in self.vcs:
-                vc = VC(name, self.pc, g, line, fr.key, kind, self.uses)
+                uses = set(self.uses)
+                if fr.contract is not None:
+                    for pref, names in fr.contract.lemmas_for.items():
+                        if kind.startswith(pref):
+                            uses |= set(names)
+                            self.lemmas_used |= set(names)
+                vc = VC(name, self.pc, g, line, fr.key, kind, uses)
                 vc.detail = detail
                 if fr.contract is not None and fr.contract.depth is not None:
                     vc.depth = fr.contract.depth
